@@ -127,7 +127,9 @@ pub struct GenCase {
     /// assigned, instead of `Generator::new(version)`; bits 6-7 say which other construction:
     /// 0 `Generator::default()`, 1 `Generator::new(V5)`, 2 `Generator::new(V0)`, 3 `Generator::new` of
     /// protocol+3 mod 6 with the earlier calls of a reuse history made under that other protocol;
-    /// bit 8 - with bit 0: with_min_opcodes is called before with_max_opcodes instead of after it
+    /// bit 8 - with bit 0: with_min_opcodes is called before with_max_opcodes instead of after it;
+    /// bit 9 - re-configuration: every builder setter is first called with a different value (the opposite
+    /// switch position, another range / rate / seed) and then with the wanted one - the last call wins
     #[serde(default)]
     pub build_style: u16,
     /// `with_buffer_size(n)` (documented as limiting the pickle size; a no-op in the tree as given)
@@ -202,6 +204,19 @@ impl GenCase {
         } else {
             Generator::new(self.version())
         };
+        if self.build_style & 512 != 0 {
+            g = g
+                .with_opcode_range(self.max_opcodes.wrapping_add(3) % 97, self.min_opcodes.wrapping_add(5) % 89)
+                .with_seed(0x5eed ^ self.protocol as u64)
+                .with_mutation_rate(if self.rate.value() == 1.0 { 0.0 } else { 1.0 })
+                .with_unsafe_mutations(!self.unsafe_mutations)
+                .with_ext_opcodes(!self.allow_ext)
+                .with_buffer_opcodes(!self.allow_buffer);
+            if matches!(self.entropy, Entropy::Bytes(_)) {
+                // a generator for fuzzer bytes has no seed
+                g.seed = None;
+            }
+        }
         if self.build_style & 4 != 0 {
             g.min_opcodes = self.min_opcodes;
             g.max_opcodes = self.max_opcodes;
@@ -249,7 +264,7 @@ impl GenCase {
         if let Some(n) = self.bufsize {
             g = g.with_buffer_size(n);
         }
-        let skip_defaults = self.build_style & 8 != 0;
+        let skip_defaults = self.build_style & 8 != 0 && self.build_style & 512 == 0;
         if self.unsafe_mutations || !skip_defaults {
             g = g.with_unsafe_mutations(self.unsafe_mutations);
         }
@@ -356,7 +371,7 @@ pub fn budgets(min_opcodes: usize, max_opcodes: usize) -> (u64, u64) {
     let m = min_opcodes.max(max_opcodes) as u64;
     // far above anything legitimate (the exact 3*max+4 bound on the opcode count is C11's business,
     // judged from the counters; these budgets only exist to stop runaway loops)
-    (100 * m + 10_000, 100_000 * (m + 8) + 1_000_000)
+    (m.saturating_mul(100).saturating_add(10_000), m.saturating_add(8).saturating_mul(100_000).saturating_add(1_000_000))
 }
 
 /// `call_gen` with the budgets armed (for callers that do not arm the trace sink themselves)
@@ -407,6 +422,8 @@ pub struct SpyEvent {
     pub changed: bool,
     /// first byte of the emission handed to post_process
     pub emitted: Option<u8>,
+    /// memo-index calls: the index handed in and the one returned (if any)
+    pub memo_io: Option<(usize, Option<usize>)>,
 }
 
 pub type SpyLog = Arc<Mutex<Vec<SpyEvent>>>;
@@ -420,7 +437,7 @@ pub struct Spy {
 
 impl Spy {
     fn rec(&self, kind: ValKind, empty_in: bool, fired: bool, changed: bool, emitted: Option<u8>) {
-        self.log.lock().unwrap().push(SpyEvent { idx: self.idx, kind, empty_in, fired, changed, emitted });
+        self.log.lock().unwrap().push(SpyEvent { idx: self.idx, kind, empty_in, fired, changed, emitted, memo_io: None });
     }
 }
 
@@ -457,7 +474,7 @@ impl Mutator for Spy {
     }
     fn mutate_memo_index(&self, v: usize, s: &mut GenerationSource, r: f64) -> Option<usize> {
         let o = self.inner.mutate_memo_index(v, s, r);
-        self.rec(ValKind::Memo, false, o.is_some(), false, None);
+        self.log.lock().unwrap().push(SpyEvent { idx: self.idx, kind: ValKind::Memo, empty_in: false, fired: o.is_some(), changed: false, emitted: None, memo_io: Some((v, o)) });
         o
     }
     fn is_unsafe(&self) -> bool {
@@ -670,7 +687,7 @@ pub fn gencase(p: &Profile) -> BoxedStrategy<GenCase> {
         prop_oneof![2 => Just(false), 1 => Just(true)],
         prop_oneof![2 => Just(false), 1 => Just(true)],
         prop_oneof![14 => Just(0u8), 4 => Just(1u8), 2 => Just(2u8)],
-        (prop_oneof![3 => Just(0u16), 2 => 0u16..64, 2 => 0u16..512], prop_oneof![9 => Just(None), 1 => proptest::sample::select(vec![16usize, 64, 256, 320, 1024, 4096, 1 << 20]).prop_map(Some)]),
+        (prop_oneof![3 => Just(0u16), 2 => 0u16..64, 2 => 0u16..1024], prop_oneof![9 => Just(None), 1 => proptest::sample::select(vec![16usize, 64, 256, 320, 1024, 4096, 1 << 20]).prop_map(Some)]),
     )
         .prop_map(move |(protocol, entropy, (min, max), mutators, rate, uns, ext, buf, prior, (style, bufsize))| GenCase {
             protocol,
